@@ -166,9 +166,13 @@ func withSeen(p *progs.Prog) *progs.Prog {
 	q := p.Clone()
 	m := len(q.Decls)
 	q.Decls = append(q.Decls, progs.Decl{Kind: "counter", Name: "w", Keys: []string{"k"}})
+	// in front of the generated rules: a statement of theirs that raises a
+	// runtime error abandons the rest of the line
+	var rs []progs.Rule
 	for _, t := range progs.Toks {
-		q.Rules = append(q.Rules, progs.Rule{Tok: t, Stmts: []progs.Stmt{{Op: "inc", M: m}}})
+		rs = append(rs, progs.Rule{Tok: t, Stmts: []progs.Stmt{{Op: "inc", M: m}}})
 	}
+	q.Rules = append(rs, q.Rules...)
 	return q
 }
 
